@@ -457,6 +457,133 @@ func init() {
 		Explanation: "Decides the structural clauses of the merge-on-read/flush plumbing: (a) a scan never stops by itself (path rule over every row loop), (b) raw pass-through happens only for untouched rows with identical layout and its consumer honours it, (c) each key present in both stores is emitted once (one removal context), (d) a flush writes file ∪ memstore with the memstore's own offsets, (e) file store and memstore are swapped and snapshotted atomically (lock regions). Added clauses: the read buffer is reused by a flush only when rows are not retained (!shouldSort); the ALTER path (= C15.c).",
 		NotDecided:  []string{"Sequence.Merge arithmetic for gaps/overlaps/leads (values)", "which periods the 10th (truncating) flush removes", "crash-point behaviour (see C02); the clean-restart resume wiring is decided (C03.f)"},
 		Assumptions: []string{"io.EOF from binary.Read means end of the file's rows", "sync.RWMutex semantics"},
-		Rules:       []func(*Ctx){func(c *Ctx) { ruleC03a(c, "C03.a") }, func(c *Ctx) { ruleC03b(c, "C03.b") }, func(c *Ctx) { ruleC03c(c, "C03.c") }, func(c *Ctx) { ruleC03d(c, "C03.d") }, func(c *Ctx) { ruleLockRegions(c, "C03.e") }, func(c *Ctx) { ruleC02f(c, "C03.f") }, func(c *Ctx) { ruleC15c(c, "C03.g") }},
+		Rules:       []func(*Ctx){func(c *Ctx) { ruleC03h(c, "C03.h") }, func(c *Ctx) { ruleC03i(c, "C03.i") }, func(c *Ctx) { ruleC03a(c, "C03.a") }, func(c *Ctx) { ruleC03b(c, "C03.b") }, func(c *Ctx) { ruleC03c(c, "C03.c") }, func(c *Ctx) { ruleC03d(c, "C03.d") }, func(c *Ctx) { ruleLockRegions(c, "C03.e") }, func(c *Ctx) { ruleC02f(c, "C03.f") }, func(c *Ctx) { ruleC15c(c, "C03.g") }},
 	})
+}
+
+// ruleC03h: a queue-driven tree traversal visits the children of every node it
+// pops, whatever it decides about the node's own data.
+func ruleC03h(c *Ctx, rule string) {
+	c.describe(rule, "pathstate: in (*bytetree.Tree).Walk and Copy every iteration of the node-queue loop that continues reaches the inner loop that enqueues the node's children — a node whose own row is skipped (already removed for this context, or without data) still has descendants that must be visited; skipping them loses the memstore-only keys below a key that is also on disk")
+	for _, name := range []string{"(*z/bytetree.Tree).Walk", "(*z/bytetree.Tree).Copy"} {
+		fn := c.need(rule, name)
+		if fn == nil {
+			continue
+		}
+		// outer loop: the largest loop; inner: a range loop inside it whose body appends to a []*node
+		var outer *loopInfo
+		for _, l := range loopsOf(fn) {
+			l := l
+			if outer == nil || len(l.body) > len(outer.body) {
+				outer = &l
+			}
+		}
+		if outer == nil {
+			c.undecided(rule, name+": children are enqueued on every iteration", fn.Pos(), "no loop found")
+			continue
+		}
+		var inner *loopInfo
+		for _, l := range loopsOf(fn) {
+			l := l
+			if l.header == outer.header || !outer.body[l.header] {
+				continue
+			}
+			for b := range l.body {
+				for _, in := range b.Instrs {
+					if call, ok := in.(*ssa.Call); ok && isCall(call, "builtin append") && typeStr(call.Call.Args[0].Type()) == "[]*z/bytetree.node" {
+						inner = &l
+					}
+				}
+			}
+		}
+		if inner == nil {
+			c.undecided(rule, name+": children are enqueued on every iteration", fn.Pos(), "no inner loop appending to the node queue found")
+			continue
+		}
+		ok := true
+		badPath := ""
+		// every path body-entry -> outer header (a completed iteration) passes the inner loop's header
+		for _, s := range outer.header.Succs {
+			if !outer.body[s] {
+				continue
+			}
+			_, complete := pathsToFrom(outer.header, s, outer.header, func(p pathAtoms) bool {
+				for _, pb := range p.blocks[:len(p.blocks)-1] {
+					if pb == inner.header {
+						return true
+					}
+				}
+				ok = false
+				var bs []string
+				for _, pb := range p.blocks {
+					bs = append(bs, "b"+itoa(pb.Index))
+				}
+				badPath = strings.Join(bs, ">")
+				return false
+			})
+			if !complete && ok {
+				ok = false
+				badPath = "path enumeration incomplete"
+			}
+		}
+		c.check(rule, name+": children are enqueued on every iteration", outer.header.Instrs[0].Pos(), ok, "every continuing iteration passes the loop over n.edges", "an iteration can go on to the next queued node without enqueuing this node's children ("+badPath+"): the subtree below a skipped node is never visited")
+	}
+}
+
+// ruleC03i: a forced flush flushes.
+func ruleC03i(c *Ctx, rule string) {
+	c.describe(rule, "dom: in processInserts the completion of a forced flush (send on forceFlushCompletes) is dominated by a call of the flush closure made in the same select case — FlushAll / the memory-cap flush return only after the memstore was handed to the flush, never skipped on a time condition; otherwise what is on disk after FlushAll depends on the earlier flush schedule")
+	pi := c.need(rule, "(*z.rowStore).processInserts")
+	if pi == nil {
+		return
+	}
+	n := 0
+	for _, f := range withHelpers(c.P, pi) {
+		for _, in := range instrs(f) {
+			snd, ok := in.(*ssa.Send)
+			if !ok || !isFieldLoad(snd.Chan, "z.rowStore.forceFlushCompletes") {
+				continue
+			}
+			n++
+			dom := false
+			for _, call := range calls(f) {
+				cv := call.Common().Value
+				isFlush := false
+				if mc, isMC := cv.(*ssa.MakeClosure); isMC {
+					if cl, isF := mc.Fn.(*ssa.Function); isF && len(callsToDeep(cl, "(*z.rowStore).processFlush")) > 0 {
+						isFlush = true
+					}
+				}
+				if u, isU := cv.(*ssa.UnOp); isU {
+					for _, st := range cellStores(f, cellRoot(u.X)) {
+						if mc, isMC := st.Val.(*ssa.MakeClosure); isMC {
+							if cl, isF := mc.Fn.(*ssa.Function); isF && len(callsToDeep(cl, "(*z.rowStore).processFlush")) > 0 {
+								isFlush = true
+							}
+						}
+					}
+				}
+				if g := call.Common().StaticCallee(); g != nil && len(callsToDeep(g, "(*z.rowStore).processFlush")) > 0 {
+					isFlush = true
+				}
+				if isFlush && instrDominates(call.(ssa.Instruction), snd) && sameSelectCase(f, call.(ssa.Instruction), snd) {
+					dom = true
+				}
+			}
+			c.check(rule, "a forced flush completes only after flushing", snd.Pos(), dom, "flush(true) dominates forceFlushCompletes <- true in the same select case", "the forced-flush completion can be signalled on a path that did not call the flush (e.g. skipped because the last flush was recent): FlushAll returns with the memstore unflushed, so disk-only queries and restarts see a state that depends on the earlier flush schedule")
+		}
+	}
+	c.floor(rule, "sends on forceFlushCompletes", n, 1)
+}
+
+// sameSelectCase: no select instruction lies between a and b (a dominates b).
+func sameSelectCase(fn *ssa.Function, a, b ssa.Instruction) bool {
+	for _, in := range instrs(fn) {
+		if sel, ok := in.(*ssa.Select); ok {
+			if instrDominates(a, sel) && instrDominates(sel, b) {
+				return false
+			}
+		}
+	}
+	return true
 }
